@@ -4,7 +4,7 @@ import ast
 from ..core import AnalysisError
 from ..effects import access_path
 from ..rules import state as S
-from ..rules.fragments import run_fragment
+from ..rules.fragments import run_fragment, run_fragments
 from ..specs import kwnames
 
 
@@ -25,9 +25,19 @@ def run(ck, ctx):
     run_fragment(ck, ctx, "kwnames", tier=ck.tier)
     ck.analysed["keywords_explored_as_names"] = len(kwnames.keyword_words(lm))
     ck.analysed["excluded_as_column_name (property)"] = sorted(kwnames.EXCLUDED_COLUMN)
-    run_fragment(ck, ctx, "table", label="verbatim-names", tier=ck.tier, constraints=True, set_null=False, all_name_styles=True)
-    run_fragment(ck, ctx, "table", label="normalize-names", tier=ck.tier, constraints=True, set_null=False, all_name_styles=True,
-                 normalize_names=True, self_attrs={"normalize_names": True, "silent": True})
+    jobs = []
+    if ck.tier == "thorough":
+        # the full product of the four styles over all identifier positions
+        jobs.append(dict(module="table", label="verbatim-names", build_kw=dict(tier=ck.tier, constraints=True, set_null=False, all_name_styles=True)))
+        jobs.append(dict(module="table", label="normalize-names", self_attrs={"normalize_names": True, "silent": True},
+                         build_kw=dict(tier=ck.tier, constraints=True, set_null=False, all_name_styles=True, normalize_names=True)))
+    else:
+        # every identifier position of the statement in one style, for each of the four styles
+        for st in ("plain", "dq", "bt", "br"):
+            jobs.append(dict(module="table", label=f"verbatim-names[{st}]", build_kw=dict(tier=ck.tier, constraints=True, set_null=False, style=st)))
+            jobs.append(dict(module="table", label=f"normalize-names[{st}]", self_attrs={"normalize_names": True, "silent": True},
+                             build_kw=dict(tier=ck.tier, constraints=True, set_null=False, style=st, normalize_names=True)))
+    run_fragments(ck, ctx, jobs)
     # ---- O-lex-whole: identifiers with a keyword prefix are taken whole by the identifier rule
     n = 0
     import re as _re
